@@ -17,48 +17,65 @@ EXTENDS Naturals, FiniteSets, TLC, Json
 
 CONSTANTS Acc, MaxGen,
           TrustsAll     \* deviation switch: FALSE = claimed; TRUE = a store that answers "trusted" for every key
-VARIABLES gen, pin, sess, auto, last, act
-vars == <<gen, pin, sess, auto, last>>
+VARIABLES gen, pin, sess, unack, auto, last, act
+\* unack[h][c]: h built its session with c from a key bundle and has not yet received a message from c on it; what h
+\* sends on such a session is a "first message" (it carries h's identity and names one of c's one-time keys)
+vars == <<gen, pin, sess, unack, auto, last>>
 
 Accepts(h, c) == pin[h][c] \in {0, gen[c]} \/ auto[h] \/ TrustsAll
 
 Init == /\ gen = [c \in Acc |-> 1]
         /\ pin = [h \in Acc |-> [c \in Acc |-> 0]]
         /\ sess = [h \in Acc |-> [c \in Acc |-> 0]]
+        /\ unack = [h \in Acc |-> [c \in Acc |-> FALSE]]
         /\ auto \in [Acc -> BOOLEAN]
         /\ last = [h |-> "", c |-> "", delivered |-> FALSE]
         /\ act = [name |-> "Init"]
 
-(* c presents its identity to h through a key bundle h fetched.                   *)
-\* result: <<accepted, pin', sess'>> for the pair (h, c)
-Bundle(h, c, p, s) == IF p[h][c] \in {0, gen[c]} \/ auto[h] \/ TrustsAll
-                        THEN <<TRUE, [p EXCEPT ![h][c] = gen[c]], [s EXCEPT ![h][c] = gen[c]]>>
-                        ELSE <<FALSE, p, s>>
-(* h presents its identity to c through a first message on a session built for     *)
-(* c's current generation.                                                         *)
-First(h, c, p, s) == IF p[c][h] \in {0, gen[h]} \/ auto[c] \/ TrustsAll
-                       THEN <<TRUE, [p EXCEPT ![c][h] = gen[h]], [s EXCEPT ![c][h] = IF @ = 0 THEN gen[h] ELSE @]>>
-                       ELSE <<FALSE, p, s>>
+W(p, s, u) == [pin |-> p, sess |-> s, unack |-> u]
+(* c presents its identity to h through a key bundle h fetched: <<accepted, world'>>.  *)
+Bundle(h, c, w) ==
+  IF w.pin[h][c] \in {0, gen[c]} \/ auto[h] \/ TrustsAll
+    THEN <<TRUE, W([w.pin EXCEPT ![h][c] = gen[c]], [w.sess EXCEPT ![h][c] = gen[c]], [w.unack EXCEPT ![h][c] = TRUE])>>
+    ELSE <<FALSE, w>>
+(* A message of h on a session built for c's CURRENT install reaches c.  A first message *)
+(* presents h's identity (checked, then remembered, and it sets up c's session); a later  *)
+(* message is simply decrypted.                                                          *)
+Arrive(h, c, w) ==
+  IF w.unack[h][c]
+    THEN IF w.pin[c][h] \in {0, gen[h]} \/ auto[c] \/ TrustsAll
+           THEN <<TRUE, W([w.pin EXCEPT ![c][h] = gen[h]], [w.sess EXCEPT ![c][h] = gen[h]], [w.unack EXCEPT ![c][h] = FALSE])>>
+           ELSE <<FALSE, w>>
+    ELSE <<TRUE, W(w.pin, w.sess, [w.unack EXCEPT ![c][h] = FALSE])>>
+(* A message of h on a session built for an OLDER install of c reaches c: it cannot be   *)
+(* decrypted.  <<c asks for a retry, world'>>                                            *)
+(* save: whether the key ids the first message names happen to exist in c's new store - *)
+(* then c gets as far as remembering h's identity before the decryption fails.          *)
+Stale(h, c, w, save) ==
+  IF w.unack[h][c]
+    THEN \* a first message: identity check, then the keys it names are unknown or wrong -> retry (under automatic trust a
+         \* different remembered key is replaced before the retry)
+         IF w.pin[c][h] \in {0, gen[h]} \/ TrustsAll
+           THEN <<TRUE, IF save THEN W([w.pin EXCEPT ![c][h] = gen[h]], w.sess, w.unack) ELSE w>>
+         ELSE IF auto[c] THEN <<TRUE, W([w.pin EXCEPT ![c][h] = gen[h]], w.sess, w.unack)>>
+         ELSE <<FALSE, w>>
+    ELSE \* a later message: without a session c first fetches h's keys (and meets h's identity), then asks for a retry
+         IF w.sess[c][h] = 0 THEN Bundle(c, h, w) ELSE <<TRUE, w>>
 
 Send(h, c) ==
   /\ h # c
-  /\ LET \* step 1: h has no session -> bundle; otherwise it encrypts for the session it has
-         b1 == IF sess[h][c] = 0 THEN Bundle(h, c, pin, sess) ELSE <<TRUE, pin, sess>>
-         emitted == b1[1]
-         sgen == b1[3][h][c]
-         \* step 2a: the ciphertext is for c's current install -> c checks h's identity
-         d1 == First(h, c, b1[2], b1[3])
-         \* step 2b: the ciphertext is for an older install of c: c cannot decrypt; without a session it first fetches h's
-         \* keys (pinning h), then asks for a retry; h fetches c's keys and meets c's new identity
-         c1 == IF b1[3][c][h] = 0 THEN Bundle(c, h, b1[2], b1[3]) ELSE <<TRUE, b1[2], b1[3]>>
-         r1 == Bundle(h, c, c1[2], c1[3])
-         d2 == First(h, c, r1[2], r1[3])
-         fin == IF ~emitted THEN <<FALSE, b1[2], b1[3]>>
-                ELSE IF sgen = gen[c] THEN d1
-                ELSE IF ~c1[1] THEN <<FALSE, c1[2], c1[3]>>
-                ELSE IF ~r1[1] THEN <<FALSE, r1[2], r1[3]>>
-                ELSE d2
-     IN /\ pin' = fin[2] /\ sess' = fin[3]
+  /\ \E save \in BOOLEAN :
+     LET w0 == W(pin, sess, unack)
+         b1 == IF sess[h][c] = 0 THEN Bundle(h, c, w0) ELSE <<TRUE, w0>>
+         w1 == b1[2]
+         s1 == Stale(h, c, w1, save)
+         r1 == Bundle(h, c, s1[2])            \* the retry makes h fetch c's keys: it meets c's new identity
+         fin == IF ~b1[1] THEN <<FALSE, w1>>
+                ELSE IF w1.sess[h][c] = gen[c] THEN Arrive(h, c, w1)
+                ELSE IF ~s1[1] THEN <<FALSE, s1[2]>>
+                ELSE IF ~r1[1] THEN <<FALSE, r1[2]>>
+                ELSE Arrive(h, c, r1[2])
+     IN /\ pin' = fin[2].pin /\ sess' = fin[2].sess /\ unack' = fin[2].unack
         /\ last' = [h |-> h, c |-> c, delivered |-> fin[1]]
   /\ UNCHANGED <<gen, auto>>
   /\ act' = [name |-> "Send", h |-> h, c |-> c]
@@ -68,27 +85,24 @@ Reinstall(c) ==
   /\ gen' = [gen EXCEPT ![c] = @ + 1]
   /\ pin' = [pin EXCEPT ![c] = [x \in Acc |-> 0]]
   /\ sess' = [sess EXCEPT ![c] = [x \in Acc |-> 0]]
+  /\ unack' = [unack EXCEPT ![c] = [x \in Acc |-> FALSE]]
   /\ last' = [h |-> "", c |-> "", delivered |-> FALSE]
   /\ UNCHANGED auto
   /\ act' = [name |-> "Reinstall", c |-> c]
 
-(* The server tells h that c's identity changed; h fetches c's bundle.  With an    *)
-(* accepted known-or-new identity the session is (re)built from the bundle; under  *)
-(* automatic trust the new key is remembered and the session is rebuilt later (at   *)
-(* the retry the stale session provokes).                                           *)
+(* The server tells h that c's identity changed; h fetches c's bundle: an accepted     *)
+(* identity is remembered and the session is (re)built from the bundle.                *)
 Notify(h, c) ==
   /\ h # c
-  /\ IF pin[h][c] \in {0, gen[c]} \/ TrustsAll
-       THEN pin' = [pin EXCEPT ![h][c] = gen[c]] /\ sess' = [sess EXCEPT ![h][c] = gen[c]]
-       ELSE IF auto[h] THEN pin' = [pin EXCEPT ![h][c] = gen[c]] /\ UNCHANGED sess
-       ELSE UNCHANGED <<pin, sess>>
+  /\ LET b == Bundle(h, c, W(pin, sess, unack)) IN
+       pin' = b[2].pin /\ sess' = b[2].sess /\ unack' = b[2].unack
   /\ last' = [h |-> "", c |-> "", delivered |-> FALSE]
   /\ UNCHANGED <<gen, auto>>
   /\ act' = [name |-> "Notify", h |-> h, c |-> c]
 
-Restart(h) == /\ UNCHANGED <<gen, pin, sess, auto>> /\ last' = [h |-> "", c |-> "", delivered |-> FALSE]
+Restart(h) == /\ UNCHANGED <<gen, pin, sess, unack, auto>> /\ last' = [h |-> "", c |-> "", delivered |-> FALSE]
               /\ act' = [name |-> "Restart", h |-> h]
-SetAuto(h, v) == /\ auto[h] # v /\ auto' = [auto EXCEPT ![h] = v] /\ UNCHANGED <<gen, pin, sess>>
+SetAuto(h, v) == /\ auto[h] # v /\ auto' = [auto EXCEPT ![h] = v] /\ UNCHANGED <<gen, pin, sess, unack>>
                  /\ last' = [h |-> "", c |-> "", delivered |-> FALSE]
                  /\ act' = [name |-> "SetAuto", h |-> h, v |-> v]
 
@@ -108,7 +122,7 @@ NoSilentAccept == last.delivered => /\ pin[last.h][last.c] = gen[last.c]
 SessionMatchesPin == \A h, c \in Acc : sess[h][c] # 0 => pin[h][c] # 0 /\ (sess[h][c] = pin[h][c] \/ sess[h][c] < pin[h][c])
 (* With automatic trust on both sides messaging always resumes.                    *)
 Resumes == (last.h # "" /\ auto[last.h] /\ auto[last.c]) => last.delivered
-St == [gen |-> gen, pin |-> pin, sess |-> sess, auto |-> auto, last |-> last]
+St == [gen |-> gen, pin |-> pin, sess |-> sess, unack |-> unack, auto |-> auto, last |-> last]
 View == St
 Edge == PrintT(ToJson([from |-> St, act |-> act', to |-> St']))
 ==============================================================================
